@@ -845,7 +845,7 @@ SRC_MODULES = ["HitenModel.Props.C15", "HitenModel.Gen.C15", "HitenModel.Core.C1
 
 
 def run(ctx):
-    tr = gen(ctx)
+    tr = ctx.guard("regenerate", gen, ctx)
     ok = ctx.lean_build(PROP_MODULES)
     if ok:
         ctx.lean_audit(PROP_MODULES, SRC_MODULES)
@@ -853,8 +853,11 @@ def run(ctx):
             ctx.leanchecker(PROP_MODULES)
     from hiten.algorithms.poincare.synodic.backend import _SynodicDetectionBackend
     backend = _SynodicDetectionBackend()
-    validate_traces(ctx, tr)
-    cases = correspondence(ctx, backend)
+    if tr is not None:
+        ctx.guard("validate_traces", validate_traces, ctx, tr)
+    cases = ctx.guard("correspondence", correspondence, ctx, backend)
+    if cases is None:   # the oracle sweep needs inputs even when the model side of the correspondence is unavailable
+        cases = exact_cases(ctx)
     # independent reading of the property on the real outputs: supporting evidence when everything holds, failing-input
     # search when an obligation or the correspondence broke
     oracle_sweep(ctx, backend, cases)
